@@ -7,7 +7,6 @@ Local Open Scope list_scope.
 
 Theorem C07_sections_refines :
   forall (a : arena) (key : string) (bs : list dblock),
-         Forall (fun b : dblock => plain_items b = true) bs ->
          exists (st : bst) (t : tree),
            build_document a key bs = Ok st /\
            collect_raw (b_arena st) (Datatypes.length a) = Ok (Some t) /\
@@ -15,7 +14,6 @@ Theorem C07_sections_refines :
 Proof. exact SectionsRefine.sections_refines. Qed.
 Check C07_sections_refines :
   forall (a : arena) (key : string) (bs : list dblock),
-         Forall (fun b : dblock => plain_items b = true) bs ->
          exists (st : bst) (t : tree),
            build_document a key bs = Ok st /\
            collect_raw (b_arena st) (Datatypes.length a) = Ok (Some t) /\
@@ -24,7 +22,6 @@ Print Assumptions C07_sections_refines.
 
 Theorem C07_built_identity :
   forall (a : arena) (key : string) (bs : list dblock),
-         Forall (fun b : dblock => plain_items b = true) bs ->
          well_nested (hlv bs) = true ->
          exists (st : bst) (t : tree),
            build_document a key bs = Ok st /\
@@ -33,7 +30,6 @@ Theorem C07_built_identity :
 Proof. exact SectionsRefine.built_identity. Qed.
 Check C07_built_identity :
   forall (a : arena) (key : string) (bs : list dblock),
-         Forall (fun b : dblock => plain_items b = true) bs ->
          well_nested (hlv bs) = true ->
          exists (st : bst) (t : tree),
            build_document a key bs = Ok st /\
